@@ -1289,6 +1289,7 @@ int32_t jls_core_repair_fsr(struct jls_core_s * self, uint16_t signal_id) {
 
     int64_t offset_index_next = 0;
     int64_t offset = offsets[level];
+    int64_t offset_last = 0;               // last non-zero index entry seen at the current level
     int64_t sample_id_expect = INT64_MIN;  // of the next data chunk, when known
     struct jls_core_chunk_s index_head;
 
@@ -1343,6 +1344,13 @@ int32_t jls_core_repair_fsr(struct jls_core_s * self, uint16_t signal_id) {
             JLS_LOGE("invalid payload length");
             return JLS_ERROR_PARAMETER_INVALID;
         }
+        // entries of omitted blocks are 0: remember the last chunk that this level refers to
+        for (uint32_t k = r->header.entry_count; k > 0; --k) {
+            if (r->offsets[k - 1]) {
+                offset_last = r->offsets[k - 1];
+                break;
+            }
+        }
 
         jls_raw_seek_end(self->raw);
         if (!skip_summary && jls_core_fsr_summaryN(signal_info->track_fsr, level + 1, offset)) {
@@ -1356,10 +1364,8 @@ int32_t jls_core_repair_fsr(struct jls_core_s * self, uint16_t signal_id) {
             skip_summary = true;
             --level;
             if (r->header.entry_count > 0) {
-                offset = 0;  // entries of omitted blocks are 0: descend to the last block that was stored
-                for (uint32_t k = r->header.entry_count; (k > 0) && !offset; --k) {
-                    offset = r->offsets[k - 1];
-                }
+                offset = offset_last;
+                offset_last = 0;
                 if (0 == level) {
                     // the data that this index chunk covers ends here, stored or omitted
                     sample_id_expect = r->header.timestamp
